@@ -38,7 +38,18 @@ def run_units(units, tier):
                     jobs[(u, 'canary:' + cname)] = ex.submit(verus.run_unit, u, None, cname, 30, 2)
             except Exception:
                 pass
-        return {k: v.result() for k, v in jobs.items()}
+        res = {k: v.result() for k, v in jobs.items()}
+    # a unit whose hints / rewrites no longer fit the (rewritten) function is retried with the
+    # unplaceable ghost text dropped: same contract, same real text, fewer hints
+    for u in units:
+        m = res[(u, 'main')]
+        if m.status == 'undecided' and m.reason.startswith('lost anchor'):
+            r2 = verus.run_unit(u, None, None, 30, 4, True)
+            if r2.gen is not None:
+                r2.lenient = True
+                r2.strict_reason = m.reason
+                res[(u, 'main')] = r2
+    return res
 
 
 def decide(pid, tier, seed):
@@ -69,6 +80,10 @@ def decide(pid, tier, seed):
             undecided.append('%s: %s' % (u, main.reason))
             continue
         gen = main.gen
+        lenient = getattr(main, 'lenient', False)
+        if lenient:
+            dropped = ['%s: %s' % (it['item'], d) for it in gen['items'] for d in it.get('dropped', [])]
+            notes.append('unit %s: function text changed shape (%s); re-run with unplaceable hints dropped: %s' % (u, main.strict_reason, '; '.join(dropped)))
         items.extend(gen['items'])
         notes.extend(gen['notes'])
         for it in gen['items']:
@@ -108,6 +123,9 @@ def decide(pid, tier, seed):
                 continue
             if f['kind'] == 'assert' and f['region'] == 'extract':
                 f['scaffolding'] = True
+            if lenient:
+                # hints were dropped: a failed clause may be a lost proof, so it needs a reproducing input
+                f['scaffolding'] = True
             violations.append(f)
         # a function reported unsuccessful without a parsed error
         for fn, info in main.functions.items():
@@ -123,14 +141,14 @@ def decide(pid, tier, seed):
                 st = [v for k, v in twin.functions.items() if k.split('::')[-1] == short]
                 ok = bool(st) and not st[0]['success']
                 vacuity.append({'twin': '%s/%s' % (u, tname), 'rejected': ok})
-                if not ok and main.status == 'ok':
+                if not ok and main.status == 'ok' and not lenient:
                     undecided.append('%s/%s: precondition twin with `ensures false` verified: contract is vacuous' % (u, tname))
         for (uu, kind), r in results.items():
             if uu == u and kind.startswith('canary:'):
                 rejected = r.status == 'fail'
                 vacuity.append({'canary': '%s/%s' % (u, kind[7:]), 'rejected': rejected,
                                 'by': [f['obligation'] for f in r.failures][:3]})
-                if not rejected and main.status == 'ok':
+                if not rejected and main.status == 'ok' and not lenient and r.status != 'undecided':
                     undecided.append('%s canary %s not rejected (%s %s)' % (u, kind[7:], r.status, r.reason[:200]))
 
     # Kani harness sets
@@ -198,6 +216,17 @@ def decide(pid, tier, seed):
             continue
         f['replay'] = rp
         real_violations.append(f)
+    if undecided and not real_violations:
+        # the verifier could not decide: bounded stand-in (E3 enumerators on the real crate); it can only
+        # ever add a violation that comes with a reproducing input, never remove an undecided verdict
+        for name in cfg.get('e3', []):
+            rp = replay.search(pid, {'fn': name}, seed)
+            bounded.append({'name': 'e3/' + name, 'bound': 'enumerator (see replay/src/searches.rs)', 'status': 'failed' if rp.get('found') else 'held'})
+            if rp.get('found'):
+                real_violations.append({'obligation': 'e3/%s' % name, 'kind': 'bounded-stand-in', 'fn': name,
+                                        'clause': 'contract of %s (verifier undecided: %s)' % (name, undecided[0][:200]),
+                                        'detail': 'verifier undecided: ' + ' | '.join(undecided)[:1500], 'msg': rp.get('how', ''), 'replay': rp})
+                break
     if real_violations:
         os.makedirs(REPLAYS, exist_ok=True)
         exit_code = 1
